@@ -116,12 +116,12 @@ type Options struct {
 	// Classes: if not empty, only assertions whose label starts with one of
 	// these property ids are checked; all others are skipped (neither
 	// checked nor assumed)
-	Classes []string
-	Params        map[string]string
-	Replay        []Input // concrete replay of inputs (no solver)
-	RealRoots     []string
-	Args          []string
-	KeepOutput    bool
+	Classes    []string
+	Params     map[string]string
+	Replay     []Input // concrete replay of inputs (no solver)
+	RealRoots  []string
+	Args       []string
+	KeepOutput bool
 }
 
 type Result struct {
